@@ -74,6 +74,27 @@ fn masters() -> Vec<Vec<Piece>> {
     out
 }
 
+/// masters that touch the last column / last row of the sheet (only moved by offsets that keep them inside)
+fn masters_edge() -> Vec<Vec<Piece>> {
+    let mut edge = vec![];
+    for (row, col) in [(1u32, 16_383u32), (1_048_575, 0), (1_048_575, 16_383), (1_048_574, 16_382)] {
+        for (ra, ca) in [(false, false), (true, true), (true, false), (false, true)] { edge.push(Piece::Ref { row, col, ra, ca }); }
+    }
+    let inner = [Piece::Ref { row: 1, col: 1, ra: false, ca: false }, Piece::Ref { row: 1, col: 0, ra: false, ca: true }];
+    let mut out = vec![];
+    for t in ["#", "COUNTA(#:#)", "#*#", "SUM(#:#)+#", "'My Sheet'!#"] {
+        for e in &edge {
+            if slots(t) == 1 { out.push(instantiate(t, &[e.clone()])); continue; }
+            for i in &inner { out.push(instantiate(t, &[i.clone(), e.clone(), i.clone()])); out.push(instantiate(t, &[e.clone(), i.clone(), e.clone()])); }
+        }
+    }
+    out
+}
+
+fn stays_inside(t: &[Piece], off: (i64, i64)) -> bool {
+    t.iter().all(|p| match p { Piece::Ref { row, col, ra, ca } => (*ra || *row as i64 + off.0 <= 1_048_575) && (*ca || *col as i64 + off.1 <= 16_383), _ => true })
+}
+
 fn lit_class(t: &[Piece]) -> String {
     let lits: String = t.iter().filter_map(|p| if let Piece::Lit(s) = p { Some(*s) } else { None }).collect::<Vec<_>>().join("#");
     let mixed = t.iter().any(|p| matches!(p, Piece::Ref { ra, ca, .. } if ra != ca));
@@ -82,7 +103,8 @@ fn lit_class(t: &[Piece]) -> String {
 }
 
 fn hook_sweep(rep: &Report, thorough: bool) {
-    let ms = masters();
+    let mut ms = masters();
+    ms.extend(masters_edge());
     let offs: Vec<(i64, i64)> = if thorough { (0..=6).flat_map(|r| (0..=6).map(move |c| (r, c))).chain([(100, 0), (0, 30), (1000, 700)]).collect() } else { vec![(0, 0), (1, 0), (0, 1), (1, 1), (2, 3), (25, 0), (0, 26)] };
     let n = (ms.len() * offs.len()) as u64;
     ms.par_chunks(64).for_each(|chunk| {
@@ -91,6 +113,7 @@ fn hook_sweep(rep: &Report, thorough: bool) {
             let master = render(m, (0, 0));
             crate::engine::crumb::set_case(&format!("C15 translator master={master:?}"));
             for off in &offs {
+                if !stays_inside(m, *off) { continue; }
                 let exp = render(m, *off);
                 let got = guarded(|| calamine::verif::xlsx::replace_cell_names(&master, *off));
                 local.push((hash_of(&(&master, off)), *off != (0, 0), hash_of(&format!("{got:?}"))));
@@ -163,7 +186,7 @@ fn build(ch: &mut Chooser, ms: &[Vec<Piece>]) -> FCase {
     expect.push(((anchor.0 + 10, anchor.1), "A1*2".into()));
     cells.push(plain);
     cells.push(xlsx::XCell::new(anchor.0 + 10, anchor.1 + 2, xlsx::XVal::Num("3".into())));
-    let enc = xlsx::XEnc { prefix: ch.flag("xlsx.prefix"), indent: ch.flag("xlsx.indented"), comments: ch.flag("xlsx.comments-between-elements"), extras: ch.flag("xlsx.optional-neighbours-of-sheetData"), rows_never_r: ch.flag("xlsx.rows-never-carry-r"), shared_members_carry_text: ch.flag("xlsx.members-repeat-the-master-text"), cell_r: if ch.flag("xlsx.cell-r-implicit") { xlsx::RMode::Implicit } else { xlsx::RMode::Explicit }, ..Default::default() };
+    let enc = xlsx::XEnc { prefix: ch.flag("xlsx.prefix"), indent: ch.flag("xlsx.indented"), comments: ch.flag("xlsx.comments-between-elements"), extras: ch.flag("xlsx.optional-neighbours-of-sheetData"), rows_never_r: ch.flag("xlsx.rows-never-carry-r"), shared_members_carry_text: ch.flag("xlsx.members-repeat-the-master-text"), split_text_nodes: ch.flag("xlsx.formula-text-split-by-cdata-and-comments"), cell_r: if ch.flag("xlsx.cell-r-implicit") { xlsx::RMode::Implicit } else { xlsx::RMode::Explicit }, ..Default::default() };
     let bytes = xlsx::write(&xlsx::XBook { sheets: vec![xlsx::XSheet::new("S", cells)], ..Default::default() }, &enc);
     expect.sort();
     let desc = json!({"shape": [h, w], "master_cell": a1(anchor.0, anchor.1), "master": render(m, (0, 0)), "master_skips": skip, "second_group": second, "si_swapped": si_swapped, "member_without_formula": omit_member});
@@ -207,7 +230,7 @@ pub fn check(rep: &Report) {
     let mut st = Stats::default();
     let mut local = vec![];
     crate::engine::crumb::set_job("C15 file level");
-    explore_deviations(|ch| run_case(rep, ch, &ms, &mut local), if t { 3 } else { 2 }, &mut st);
+    explore_deviations(|ch| run_case(rep, ch, &ms, &mut local), if t { 4 } else { 2 }, &mut st);
     rep.cases_bulk(&local);
     stats.lock().unwrap().merge(&st);
     crate::engine::crumb::clear();
